@@ -17,5 +17,9 @@ ok, msg = cm.build_harness()
 if not ok:
     sys.stderr.write(msg[-3000:])
     sys.exit(1)
+ok, msg = cm.build_harness_race()
+if not ok:
+    sys.stderr.write(msg[-3000:])
+    sys.exit(1)
 print("setup ok")
 PY
